@@ -10,9 +10,9 @@ git -C /repo worktree remove --force "$WT" >/dev/null 2>&1
 rm -rf "$WT"
 git -C /repo worktree add -q --detach "$WT" HEAD || exit 2
 if ! git -C "$WT" apply "$SRC/patch.diff" 2>/dev/null && ! git -C "$WT" apply -3 "$SRC/patch.diff"; then echo "patch does not apply"; git -C /repo worktree remove --force "$WT"; exit 2; fi
-echo "== demo on unchanged tree"; PYTHONPATH=/repo/src /venv/bin/python "$SRC/demo.py" >/tmp/seed_demo_clean.txt 2>&1; RC_CLEAN=$?; tail -2 /tmp/seed_demo_clean.txt
-echo "== demo on changed tree"; PYTHONPATH="$WT/src" /venv/bin/python "$SRC/demo.py" >/tmp/seed_demo_mut.txt 2>&1; RC_MUT=$?; tail -2 /tmp/seed_demo_mut.txt
-echo "== test suite on changed tree"; (cd "$WT" && PYTHONPATH="$WT/src" /venv/bin/python -m pytest -q -p no:cacheprovider 2>&1 | tail -1) | tee /tmp/seed_suite.txt
+echo "== demo on unchanged tree"; PYTHONPATH=/repo/src /venv/bin/python "$SRC/demo.py" >/tmp/seed_demo_clean_$NAME.txt 2>&1; RC_CLEAN=$?; tail -2 /tmp/seed_demo_clean_$NAME.txt
+echo "== demo on changed tree"; PYTHONPATH="$WT/src" /venv/bin/python "$SRC/demo.py" >/tmp/seed_demo_mut_$NAME.txt 2>&1; RC_MUT=$?; tail -2 /tmp/seed_demo_mut_$NAME.txt
+echo "== test suite on changed tree"; (cd "$WT" && PYTHONPATH="$WT/src" /venv/bin/python -m pytest -q -p no:cacheprovider 2>&1 | tail -1) | tee /tmp/seed_suite_$NAME.txt
 OUT="/tmp/seedout_$NAME"; rm -rf "$OUT"; mkdir -p "$OUT"
 RES=""
 for P in $PID $EXTRA; do
@@ -28,7 +28,7 @@ mkdir -p "/verif/seeded/$NAME"
 import json, sys, os, glob
 src, name, pid, rc_clean, rc_mut, res, out = sys.argv[1:8]
 meta = json.load(open(os.path.join(src, "meta.json")))
-suite = open("/tmp/seed_suite.txt").read().strip()
+suite = open("/tmp/seed_suite_%s.txt" % name).read().strip()
 viol = []
 for f in glob.glob(os.path.join(out, "check_*.txt")):
     for l in open(f):
